@@ -41,11 +41,17 @@ def main():
             chans = sorted(os.listdir(src))
             chs = None
             r = rnd.random()
-            if r < 0.45 and chans:
+            if r < 0.1:
+                chs = [rnd.choice(["nosuch", "missing_channel"])]      # a channel that does not exist: nothing is listed, nothing may be transferred
+                args += ["-c", chs[0]]
+            elif r < 0.5 and chans:
                 chs = rnd.sample(chans, rnd.randrange(1, len(chans) + 1))
+                if rnd.random() < 0.15:
+                    chs.append("nosuch")
                 deco = rnd.choice(["plain", "plain", "slash", "dot"])
                 for c in chs:
                     args += ["-c", {"plain": c, "slash": c + "/", "dot": "./" + c}[deco]]
+                chs = list(chs)
             if "starttime" in kw:
                 args += ["-s", kw["starttime"].strftime("%Y-%m-%dT%H:%M:%S.%f")]
             if "endtime" in kw:
@@ -69,6 +75,8 @@ def main():
             want = {}
             roots = [(os.path.join(src, c), c) for c in chs] if chs else [(src, "")]
             for sroot, rel in roots:
+                if not os.path.isdir(sroot):
+                    continue
                 for p in list_drf.lsdrf(sroot, **lkw):
                     want[os.path.normpath(os.path.join(rel, os.path.relpath(p, sroot)))] = p
             before = snap(src)
